@@ -127,6 +127,7 @@ type SE struct {
 	b string
 	C []int
 	d *int
+	E bool
 }
 
 func NewSE(a int, b string) SE { return SE{A: a, b: b} }
